@@ -428,7 +428,7 @@ def clean_plan(rng: random.Random, cfg, nframes_: int, sizes=None, fresh_noise=T
     return plan
 
 
-NOISE_KINDS = ["random", "framestart", "escape_end", "truncated", "abort", "flagsesc", "overlong", "empty", "shortframe"]
+NOISE_KINDS = ["random", "framestart", "escape_end", "truncated", "abort", "flagsesc", "overlong", "empty", "shortframe", "escape_cut"]
 
 
 def noise_prefix(rng: random.Random, cfg, kind: str) -> bytes:
@@ -449,6 +449,8 @@ def noise_prefix(rng: random.Random, cfg, kind: str) -> bytes:
         return bytes(rng.choice([FLAG, ESC, ESC, 0x5E]) for _ in range(rng.randint(1, 12)))
     if kind == "overlong":
         return bytes([FLAG, 0xA0]) + bytes(rng.choice([1, 3, 0x10, 0x20]) for _ in range(rng.choice([2046, 2047, 2048, 2100])))
+    if kind == "escape_cut":      # a frame start cut off right after an escape octet, before its header is complete
+        return bytes([FLAG]) * rng.randint(0, 1) + bytes([0xA0, 0x0B, 0x01, 0x03, 0x13, 0x55])[:rng.randint(1, 6)] + bytes([ESC])
     if kind == "shortframe":
         return bytes([FLAG]) + bytes(rng.randrange(256) for _ in range(rng.randint(1, 6))) + bytes([FLAG]) * rng.randint(0, 1)
     return b""
